@@ -74,6 +74,8 @@ pub struct GenCfg {
     /// explicit tags on SEQUENCE/SET/ENUMERATED/CHOICE type assignments (family of rasn-derive
     /// findings F-explicit-*; CHOICE assignments then get no tag at all)
     pub explicit_tagged_constructed: bool,
+    /// probability (percent) of an extension marker on a constructed type
+    pub ext_pct: u32,
 }
 
 impl Default for GenCfg {
@@ -118,6 +120,7 @@ impl Default for GenCfg {
             explicit_empty_struct: true,
             untagged_choice_ref: true,
             explicit_tagged_constructed: true,
+            ext_pct: 35,
         }
     }
 }
@@ -141,6 +144,8 @@ const MOD_STEMS: [&str; 4] = ["Mod", "Test-Module", "Defs", "Proto-Spec"];
 #[derive(Clone, Debug)]
 pub struct Decl {
     pub module: usize,
+    /// declared in an AUTOMATIC TAGS module
+    pub auto: bool,
     pub name: String,
     pub tag: Option<Tag>,
     pub ty: Ty,
@@ -167,6 +172,7 @@ impl Scope {
                     s.by_name.insert(name.clone(), s.decls.len());
                     s.decls.push(Decl {
                         module: mi,
+                        auto: m.tagging == Tagging::Automatic,
                         name: name.clone(),
                         tag: tag.clone(),
                         ty: ty.clone(),
@@ -241,7 +247,7 @@ pub fn universal_tag(ty: &Ty) -> Option<u32> {
 }
 
 /// the set of outermost tags a component of this type can start with
-pub fn outer_tags(scope: &Scope, tag: Option<&Tag>, ty: &Ty, depth: usize, out: &mut BTreeSet<OTag>) {
+pub fn outer_tags(scope: &Scope, tag: Option<&Tag>, ty: &Ty, auto: bool, depth: usize, out: &mut BTreeSet<OTag>) {
     if let Some(t) = tag {
         out.insert(OTag::T(t.class, t.num));
         return;
@@ -255,19 +261,15 @@ pub fn outer_tags(scope: &Scope, tag: Option<&Tag>, ty: &Ty, depth: usize, out: 
             out.insert(OTag::Wild);
         }
         Ty::Choice(a) => {
-            for c in &a.root {
-                outer_tags(scope, c.tag.as_ref(), &c.ty, depth + 1, out);
-            }
-            if let Some(adds) = &a.ext {
-                for ad in adds {
-                    match ad {
-                        Addition::Comp(c) => outer_tags(scope, c.tag.as_ref(), &c.ty, depth + 1, out),
-                        Addition::Group { comps, .. } => {
-                            for c in comps {
-                                outer_tags(scope, c.tag.as_ref(), &c.ty, depth + 1, out)
-                            }
-                        }
-                    }
+            let alts = flat_comps(&a.root, &a.ext);
+            if auto && alts.iter().all(|(c, _)| c.tag.is_none()) {
+                // automatic tagging applies to this CHOICE: context 0..n-1
+                for i in 0..alts.len() {
+                    out.insert(OTag::T(Class::Context, i as u32));
+                }
+            } else {
+                for (c, _) in alts {
+                    outer_tags(scope, c.tag.as_ref(), &c.ty, auto, depth + 1, out);
                 }
             }
         }
@@ -277,7 +279,7 @@ pub fn outer_tags(scope: &Scope, tag: Option<&Tag>, ty: &Ty, depth: usize, out: 
             Some(d) if (d.tag.is_none() || scope.choice_ref_wild) && matches!(d.ty, Ty::Choice(_)) => {
                 out.insert(OTag::Wild);
             }
-            Some(d) => outer_tags(scope, d.tag.as_ref(), &d.ty, depth + 1, out),
+            Some(d) => outer_tags(scope, d.tag.as_ref(), &d.ty, d.auto, depth + 1, out),
             None => {
                 out.insert(OTag::Wild);
             }
@@ -329,12 +331,12 @@ pub fn flat_comps<'a>(root: &'a [Comp], ext: &'a Option<Vec<Addition>>) -> Vec<(
 
 /// X.680 distinct-tag requirement for one component list (§25.6, §27.3, §29.3), evaluated
 /// conservatively (extension additions count as optional).
-fn comps_tags_ok(scope: &Scope, kind: u8, comps: &[(&Comp, bool)]) -> bool {
+fn comps_tags_ok(scope: &Scope, kind: u8, comps: &[(&Comp, bool)], auto: bool) -> bool {
     let sets: Vec<BTreeSet<OTag>> = comps
         .iter()
         .map(|(c, _)| {
             let mut s = BTreeSet::new();
-            outer_tags(scope, c.tag.as_ref(), &c.ty, 0, &mut s);
+            outer_tags(scope, c.tag.as_ref(), &c.ty, auto, 0, &mut s);
             if kind == 1 && scope.set_choice_wild && c.tag.is_none() && scope.is_choice_or_open(&c.ty) {
                 s.insert(OTag::Wild);
             }
@@ -521,7 +523,7 @@ impl<'s, 'a> Gen<'s, 'a> {
         let root: Vec<_> = (0..n)
             .map(|i| mk(self, &mut used, tagn, i, numbered, None))
             .collect();
-        let ext = if self.cfg.ext && self.src.chance(35) {
+        let ext = if self.cfg.ext && self.src.chance(self.cfg.ext_pct) {
             let k = self.src.pick(3);
             let mut prev = used.iter().max().copied();
             let mut adds = vec![];
@@ -741,7 +743,7 @@ impl<'s, 'a> Gen<'s, 'a> {
                 self.strip_value_cons(c);
             }
         }
-        let ext = if self.cfg.ext && self.src.chance(35) {
+        let ext = if self.cfg.ext && self.src.chance(self.cfg.ext_pct) {
             let k = self.src.pick(4);
             let mut adds = vec![];
             for _ in 0..k {
@@ -808,7 +810,7 @@ impl<'s, 'a> Gen<'s, 'a> {
                 opt: Opt::Req,
             });
         }
-        let ext = if self.cfg.ext && self.src.chance(35) {
+        let ext = if self.cfg.ext && self.src.chance(self.cfg.ext_pct) {
             let k = self.src.pick(3);
             let adds = (0..k)
                 .map(|_| {
@@ -1176,7 +1178,7 @@ impl<'s, 'a> Gen<'s, 'a> {
                 num: i as u32,
                 mode: None,
             });
-            if !comps_tags_ok(&self.scope, kind, &flat_comps(&trial_root, &trial_ext)) {
+            if !comps_tags_ok(&self.scope, kind, &flat_comps(&trial_root, &trial_ext), automatic) {
                 assign = vec![true; n];
             }
         }
@@ -1203,7 +1205,7 @@ impl<'s, 'a> Gen<'s, 'a> {
                 }
             }
         }
-        if needs_check && !comps_tags_ok(&self.scope, kind, &flat_comps(root, ext)) {
+        if needs_check && !comps_tags_ok(&self.scope, kind, &flat_comps(root, ext), automatic) {
             // class mix collided with a referenced type's own tag: fall back to distinct
             // context tags on every component, which is always valid
             *root = saved.0;
@@ -1288,6 +1290,7 @@ impl<'s, 'a> Gen<'s, 'a> {
                 self.scope.by_name.insert(tname.clone(), self.scope.decls.len());
                 self.scope.decls.push(Decl {
                     module: mi,
+                    auto: tagging == Tagging::Automatic,
                     name: tname.clone(),
                     tag: None,
                     ty: ty.clone(),
@@ -1629,4 +1632,44 @@ pub fn size_bounds(cons: &[Con]) -> (Option<i128>, Option<i128>) {
         }
     }
     (None, None)
+}
+
+/// X.680 tag-distinctness of every component list of a module set (used by the shrinker to
+/// keep candidates valid)
+pub fn tags_valid(ms: &ModuleSet) -> bool {
+    let scope = Scope::from_set(ms);
+    fn walk(scope: &Scope, ty: &Ty, auto: bool) -> bool {
+        match ty {
+            Ty::Sequence(Fields { root, ext }) | Ty::Set(Fields { root, ext }) | Ty::Choice(Alts { root, ext }) => {
+                let kind = match ty {
+                    Ty::Sequence(_) => 0,
+                    Ty::Set(_) => 1,
+                    _ => 2,
+                };
+                let flat = flat_comps(root, ext);
+                for (c, _) in &flat {
+                    if !walk(scope, &c.ty, auto) {
+                        return false;
+                    }
+                }
+                if auto && flat.iter().all(|(c, _)| c.tag.is_none()) {
+                    return true;
+                }
+                comps_tags_ok(scope, kind, &flat, auto)
+            }
+            Ty::SeqOf(o) | Ty::SetOf(o) => walk(scope, &o.elem, auto),
+            _ => true,
+        }
+    }
+    for m in &ms.modules {
+        let auto = m.tagging == Tagging::Automatic;
+        for it in &m.items {
+            if let Item::Type { ty, .. } = it {
+                if !walk(&scope, ty, auto) {
+                    return false;
+                }
+            }
+        }
+    }
+    true
 }
